@@ -506,6 +506,8 @@ def run(ctx):
     # (3) class style == procedural
     seqs = [list(c) for n in (1, 2, 3) for c in itertools.product([(nm, k) for nm in NAMES for k in MKINDS], repeat=n)] if not ctx.quick else \
            [list(c) for n in (1, 2) for c in itertools.product([(nm, k) for nm in NAMES for k in MKINDS], repeat=n)]
+    # ... also with an underscore-prefixed name, which a class body may give to an HDL object like any other
+    seqs += [list(c) for n in (1, 2) for c in itertools.product([(nm, k) for nm in ("a", "_p") for k in MKINDS], repeat=n) if any(x[0] == "_p" for x in c)]
     res = ctx.pmap(_class_vs_proc, seqs, chunk=50)
     for s, prob in zip(seqs, res):
         ctx.count(states=1, transitions=2, traces_validated_against_impl=1)
